@@ -14,6 +14,9 @@ Matrices: `{"e":k,"re":[…],"im":[…]}` (entries `(re + i·im)/2^k`) or `{"den
 * `c13_mats_dual       {"n","r","rho","sigma","Y","Z","C","L"}`
 * `c13_exact     {"n","rho","sigma"}` → `{"hs","trprod","trprod4","subfidrad"}` (rationals)
 * `c13_hs_inner  {"n","m","A","B"}`   → `{"re","im"}`
+* `c13_classical {"n","p","q","slo","shi"}` → `{"prob","td","hs","trprod","trprod4","subfidrad","flo","fhi"}` (commuting pairs)
+* `c13_round     {"lo","hi","d"}`     → `{"r","bures2","rlo","rhi"}` (`np.round(·, d)` on an enclosure)
+* `c13_guard     {"family","same","a","b"}` → `{"outcome","densA","densB"}` (argument guards)
 
 Checker answers: `{"ok":[num,den]}` (the exact value returned by the verified checker of `Toq.Model.Metrics`) or
 `{"reject":"<first failed condition>"}`; the diagnostic only words a rejection by re-evaluating the same named
@@ -156,9 +159,68 @@ def hHsInner : Handler := fun j => do
   let v := hsInner A B
   return Json.mkObj [("re", ratJson v.re), ("im", ratJson v.im)]
 
+/-! ### commuting pairs, rounding, guards -/
+
+def vecOfList (n : Nat) (l : List Rat) : Fin n → Rat := fun i => l.getD i.val 0
+
+def optRatJson : Option Rat → Json
+  | some v => ratJson v
+  | none => Json.null
+
+/-- `c13_classical {"n","p","q","slo","shi"}` (lists of `[num, den]`) → exact evaluators on the spectra and the
+certified bracket of `Σ √(p_i q_i)` -/
+def hClassical : Handler := fun j => do
+  let n ← getNat j "n"
+  let pl ← getRatList j "p"
+  let ql ← getRatList j "q"
+  let sl ← getRatList j "slo"
+  let tl ← getRatList j "shi"
+  if pl.length != n || ql.length != n || sl.length != n || tl.length != n then throw "c13_classical: length mismatch"
+  let p := vecOfList n pl
+  let q := vecOfList n ql
+  return Json.mkObj [("prob", Json.bool (isProb p && isProb q)), ("td", ratJson (classTD p q)),
+    ("hs", ratJson (classHS p q)), ("trprod", ratJson (classTrProd p q)), ("trprod4", ratJson (classTrProd4 p q)),
+    ("subfidrad", ratJson (classSubFidRad p q)),
+    ("flo", optRatJson (checkClassFidLower p q (vecOfList n sl))),
+    ("fhi", optRatJson (checkClassFidUpper p q (vecOfList n tl)))]
+
+/-- `c13_round {"lo","hi","d"}` → `{"r": round(x, d) for every x in [lo, hi] | null, "bures2": 2 (1 − r) | null, "rlo", "rhi"}` -/
+def hRound : Handler := fun j => do
+  let lo ← getRat j "lo"
+  let hi ← getRat j "hi"
+  let d ← getNat j "d"
+  let r := roundDecEncl lo hi d
+  return Json.mkObj [("r", optRatJson r), ("bures2", optRatJson (r.map fun x => 2 * (1 - x))),
+    ("rlo", ratJson (roundDec lo d)), ("rhi", ratJson (roundDec hi d))]
+
+def outcomeJson : Outcome → Json
+  | .invalidDim => Json.str "invalidDim"
+  | .notDensity => Json.str "notDensity"
+  | .value => Json.str "value"
+
+def densOf (j : Json) : Except String Bool := do
+  let herm ← getBool j "herm"
+  let me ← getRat j "mineig"
+  let tr ← getRatList j "tr"
+  if tr.length != 2 then throw "c13_guard: tr must be [re, im]"
+  return densityGuard herm me (tr.getD 0 0) (tr.getD 1 0)
+
+/-- `c13_guard {"family":"shape"|"density","same":bool,"a":{"herm","mineig","tr":[re,im]},"b":{…}}` → the modelled outcome -/
+def hGuard : Handler := fun j => do
+  let fam ← (← j.getObjVal? "family").getStr?
+  let same ← getBool j "same"
+  let da ← densOf (← j.getObjVal? "a")
+  let db ← densOf (← j.getObjVal? "b")
+  let out ← match fam with
+    | "shape" => pure (guardShapeFirst same da db)
+    | "density" => pure (guardDensityFirst same da db)
+    | _ => throw "c13_guard: family must be shape or density"
+  return Json.mkObj [("outcome", outcomeJson out), ("densA", Json.bool da), ("densB", Json.bool db)]
+
 def handlers : List (String × Handler) :=
   [("c13_tn_lower", hTNLower), ("c13_tn_upper", hTNUpper), ("c13_fid_primal", hFidPrimal),
    ("c13_fid_primal_cong", hFidPrimalCong), ("c13_fid_dual", hFidDual), ("c13_mats_primal", hMatsPrimal),
-   ("c13_mats_dual", hMatsDual), ("c13_exact", hExact), ("c13_hs_inner", hHsInner)]
+   ("c13_mats_dual", hMatsDual), ("c13_exact", hExact), ("c13_hs_inner", hHsInner),
+   ("c13_classical", hClassical), ("c13_round", hRound), ("c13_guard", hGuard)]
 
 end Toq.Driver.C13
